@@ -240,6 +240,7 @@ def run(ctx: core.Ctx):
                          note="element-wise equal to the scalar class, whatever the resolution of the time axis")
                 break
         ctx.count(f"accessor elements, datetime64[{unit}] axis", len(arr))
+    core.acc_dispatch(ctx, ['period', 'tbinit', 'anom'])
     ctx.trusted += ["harness/translate_dekad.py (AST -> Lean translator)", "Hdc/Model/PyDate.lean (model of CPython datetime, validated against CPython)",
                     "native model driver", "harness/props/c11.py oracle"]
 
